@@ -418,7 +418,12 @@ def check(col, prog, tier, profile, fixture=None):
                     d = zones.lin_sub(zones.linearize(ev.val), zones.linearize(old))
                     additive = old not in d[0] and any(True for _ in [0]) and (zones.linearize(ev.val)[0].get(old) == 1)
                     key = "%s|direct-store" % fk(b)
-                    if additive:
+                    # a store outside any loop is the length-1 special case: the one coefficient goes to position 0
+                    in_loop = any(e_.kind == "loop" for e_ in st.event_list()[: st.event_list().index(ev)]) if ev in st.event_list() else True
+                    misplaced = (not in_loop) and (any(x[0] == "call" and str(x[1]).rsplit("::", 1)[-1] in ("last_mut", "last") for x in subterms(ev.place)) or any(x[0] == "index" and x[1] == resp and x[2][0] == "int" and x[2][1] != 0 for x in [ev.place] + list(subterms(ev.place))))
+                    if additive and misplaced:
+                        col.violation("P3" + sfx, "%s|direct-store-position" % fk(b), b.loc(ev.bb), "%s adds the single coefficient of a length-1 transform into %s, not into position 0 of the caller's destination" % (b.path, tstr(ev.place)))
+                    elif additive:
                         col.ok("P3" + sfx, b.loc(ev.bb), key, "res[..] = res[..] + value")
                     else:
                         col.violation("P3" + sfx, key, b.loc(ev.bb), "%s overwrites the caller's destination (%s := %s) instead of adding to it" % (b.path, tstr(ev.place), tstr(ev.val)))
@@ -581,7 +586,7 @@ def check(col, prog, tier, profile, fixture=None):
                 early = True
         for f in st.facts:
             t = f[1]
-            if f[0] == "eq" and f[2] == 1 and isinstance(t, tuple) and t[0] == "bin" and t[1] == "Eq":
+            if f[0] == "eq" and isinstance(t, tuple) and t[0] == "bin" and ((t[1] == "Eq" and f[2] == 1) or (t[1] == "Ne" and f[2] == 0)):   # (`assert_eq!(n & (n-1), 0)`, or `if n & (n-1) != 0 { panic_helper() }`)
                 for side, other in ((t[2], t[3]), (t[3], t[2])):
                     if other == mk_int(0) and side[0] == "bin" and side[1] == "BitAnd" and n in (side[2], side[3]):
                         pow2 = True
